@@ -227,6 +227,9 @@ fn literal_cases(ctx: &Ctx, t: &mut Tape, n: u64) {
         ("100000000000000000000".into(), None),
         ("36893488147419103232".into(), None),
         ("340282366920938463463374607431768211456".into(), None),
+        ("00000000000000000042".into(), Some(42)), ("0_000_000_000_000_000_001_000".into(), Some(1000)),
+        (format!("{}7", "0".repeat(40)), Some(7)), (format!("{}9223372036854775807", "0".repeat(25)), Some(i64::MAX as i128)),
+        (format!("{}9223372036854775808", "0".repeat(25)), None), ("1000003".into(), Some(1000003)), ("4294967297".into(), Some(4294967297)),
         ("0".into(), Some(0)), ("00".into(), Some(0)), ("0_0".into(), Some(0)), ("1_".into(), Some(1)), ("1__0".into(), Some(10)),
     ];
     let mut lits = fixed;
@@ -238,6 +241,13 @@ fn literal_cases(ctx: &Ctx, t: &mut Tape, n: u64) {
         let mut text = String::new();
         for i in 0..nd {
             let dgt = if i == 0 && t.chance(1, 5) { 0 } else { t.pick(10) };
+            if i == 0 && dgt == 0 && t.chance(1, 2) {
+                // A run of leading zeros.
+                let z = 1 + t.pick(30);
+                for _ in 0..z {
+                    text.push('0');
+                }
+            }
             let c = char::from_digit(dgt as u32, 10).unwrap();
             digits.push(c);
             text.push(c);
@@ -313,36 +323,32 @@ fn range_cases(ctx: &Ctx) {
 }
 
 fn random_pair(t: &mut Tape) -> (i64, i64) {
-    let one = |t: &mut Tape| -> i64 {
-        match t.pick(6) {
-            0 => ((t.raw() as i64) << 48) | ((t.raw() as i64) << 32) | ((t.raw() as i64) << 16) | t.raw() as i64,
-            1 => {
-                let k = t.pick(63) as u32;
-                let v = (1i64 << k).wrapping_add(t.range(-2, 2));
-                if t.chance(1, 2) { v.wrapping_neg() } else { v }
-            },
-            2 => {
-                // Near a square root of 2^63 or a factor of it.
-                let v = 3037000499i64 + t.range(-3, 3);
-                if t.chance(1, 2) { -v } else { v }
-            },
-            3 => t.range(-20, 20),
-            4 => if t.chance(1, 2) { i64::MAX - t.range(0, 3) } else { i64::MIN + t.range(0, 3) },
-            _ => ((t.raw() as i64) << 16 | t.raw() as i64) - (1 << 31),
+    sdmodel::gen::arith_pair(t)
+}
+
+// Every small multiplier m with the partners around (2^63-1)/m and -2^63/m:
+// the products land within m of the limit on either side, and one operand is
+// far above 2^53.
+fn factor_sweep(max_m: i64) -> Vec<(i64, i64)> {
+    let mut out = vec![];
+    for m in 2..=max_m {
+        for lim in [i64::MAX, i64::MIN] {
+            let q = lim / m;
+            for d in [-1i64, 0, 1, 2] {
+                let b = q.wrapping_add(if lim < 0 { -d } else { d });
+                out.push((b, m));
+                if d == 1 {
+                    out.push((m, b));
+                    out.push((-m, b.wrapping_neg()));
+                }
+            }
         }
-    };
-    let a = one(t);
-    let b = if t.chance(1, 6) {
-        // A divisor-shaped partner: products / quotients near the limit.
-        if a != 0 { (i64::MAX / a).wrapping_add(t.range(-1, 1)) } else { 0 }
-    } else {
-        one(t)
-    };
-    (a, b)
+    }
+    out
 }
 
 pub fn run(ctx: &Ctx) {
-    ctx.set_rule("exhaustive grid of boundary values squared x {+ - * / %} x {plain, op-assign on variable / list element / .k / [\"k\"]} and x {< <= > >= == !=}, the division identity, left-associated chains x op1 c1 op2 c2 over boundary x and constants {0, +-1, +-2} (every intermediate step must fit), literals with separators / leading zeros / out-of-range values, ranges around every boundary, plus random 64-bit pairs; oracle: exact i128 arithmetic (result printed iff it fits i64, otherwise exit 103 naming operands and operator in order). Non-trivial = exact result differs from the wrapping one, zero divisor, negative operand of / or %, or an operand within 1 of +-2^63; distinct = distinct source texts");
+    ctx.set_rule("exhaustive grid of boundary values squared x {+ - * / %} x {plain, op-assign on variable / list element / .k / [\"k\"]} and x {< <= > >= == !=}, the division identity, left-associated chains x op1 c1 op2 c2 over boundary x and constants {0, +-1, +-2} (every intermediate step must fit), literals with separators / leading zeros / out-of-range values, ranges around every boundary, every multiplier m <= 1200 (thorough: 40000) with the partners (2^63-1)/m + {-1, 0, 1, 2} and -2^63/m likewise, plus random pairs (64-bit, 2^k +- 2, 32-bit magnitudes, random widths, small multipliers, divisor-shaped partners); oracle: exact i128 arithmetic (result printed iff it fits i64, otherwise exit 103 naming operands and operator in order). Non-trivial = exact result differs from the wrapping one, zero divisor, negative operand of / or %, or an operand within 1 of +-2^63; distinct = distinct source texts");
     ctx.replay_corpus(None);
     let vals = boundary_values(ctx.tier == Tier::Thorough);
     ctx.set_extra("grid_values", serde_json::json!(vals.len()));
@@ -360,8 +366,12 @@ pub fn run(ctx: &Ctx) {
     chain_cases(ctx, &near);
     let mut t = sdmodel::tape::tape_from_seed(ctx.sub_seed("literals", 0), 40_000);
     literal_cases(ctx, &mut t, ctx.n(300, 5_000));
+    // Small multipliers with partners at the limit.
+    let sweep = factor_sweep(if ctx.tier == Tier::Quick { 1200 } else { 40_000 });
+    ctx.label_n("factor sweep pairs", sweep.len() as u64);
+    arith_cases(ctx, &sweep, &["plain"], "factor_sweep");
     // Random pairs.
-    let n = ctx.n(4_000, 400_000);
+    let n = ctx.n(6_000, 400_000);
     let mut t = sdmodel::tape::tape_from_seed(ctx.sub_seed("pairs", 0), (n * 12) as usize);
     let mut rp = vec![];
     for _ in 0..n {
